@@ -519,7 +519,7 @@ def main(run: Run):
         # seed-chosen stratum of the generated two-instance family beyond the complete fixed set
         pick = list(range(nfixed, nfixed + ngen))
         run.rng.shuffle(pick)
-        idxs += sorted(pick[:60])
+        idxs += sorted(pick[:240])
     n = len(idxs)
     run.count("designs_generated", n)
     for kind, r in pmap(analyse, idxs):
@@ -552,7 +552,7 @@ def main(run: Run):
     run.coverage_extra.update(
         exhaustive=not run.capped,
         rule="every instantiation tree of the fixed family (4 leaf templates x topologies incl. slice/bit/view actuals, nesting, inline, helpers) "
-             "+ generated two-instance sequences (quick: 60 seed-chosen, thorough: all 962) x all reachable product states under all 64 input "
+             "+ generated two-instance sequences (quick: 240 seed-chosen, thorough: all 962) x all reachable product states under all 64 input "
              "valuations per clock",
         evaluations=run.counters.get("transitions", 0),
         distinct_nontrivial=run.counters.get("designs_with_distinct_outcomes", 0),
